@@ -1452,9 +1452,9 @@ class Node:
         self._data = new_data
 
     def unload(self):
-        if self.storage:
-            # Don't unload data if there is no Storage
-            # TODO: Check that data is actually in the storage?
+        if self.storage and not getattr(self, "_dirty", False):
+            # Don't unload data if there is no Storage, or if the data was
+            # updated since it was loaded (the update would be lost)
             self._data = None
 
     @staticmethod
@@ -1467,6 +1467,7 @@ class Node:
 
     def update(self, parent):
         parent.data.update(self.data)
+        parent._dirty = True
         if "min_n_below" in self.metadata:
             min_n_below = min(
                 parent.metadata.get("min_n_below", sys.maxsize),
@@ -1519,6 +1520,7 @@ class Leaf:
 
     def update(self, parent):
         parent.data.update(self.data)
+        parent._dirty = True
 
     @classmethod
     def load(cls, info, storage=None):
